@@ -10,8 +10,10 @@ FK_RULE = ("generated block forests of 3-25 (thorough: up to 48) blocks hanging 
            "discovery, no-LIB pass-through (correspondence only); kept 0-5; all-blocks-trigger 30%; step filters; first streamable 0-2; "
            "handler failing at a random call 18%; self-parent blocks 3%. non-trivial = at least one event delivered; distinct by input")
 
-FK_TB = ["forkable.Forkable / ForkDB modelled by hand in Model/ForkDB.v, Model/Forkable.v (lastLongestChain cache, EnsureBlockFlows, "
-         "unlinkable-block counters, logging not modelled); every run compares model and implementation event by event "
+FK_TB = ["forkable.Forkable / ForkDB modelled by hand in Model/ForkDB.v, Model/Forkable.v (EnsureBlockFlows, "
+         "unlinkable-block counters, logging not modelled; the lastLongestChain cache is modelled in Model/ForkableCache.v: fk_step_c, "
+         "and BOTH step functions are compared with the implementation on every case; Properties/C01_Cache.v proves a cache hit "
+         "equal to the recomputation); every run compares model and implementation event by event "
          "(step, block, cursor block/head/LIB, junction, StepIndex/StepCount, result, HeadInfo)",
          "W3: observed besides the Coq event fields and evaluated by the property bit: cursor step (projected onto the cursor block), "
          "identity of the delivered block / wrapped object / StepBlocks against what was fed (proto.Equal, pointer), errors.Is of the "
